@@ -165,7 +165,11 @@ def synth(name, v, muts, opts=None):
     for j in reversed(idx):
         if j in mutated:
             continue
-        for c in cls(w[j]):
+        alpha = cls(w[j])
+        if j == idx[-1] and w[j].isascii() and (w[j].isdigit() or w[j].isupper()):
+            # a final check character may be of either class (ISO 7064 Mod 37,36 / Mod 11,10 'X'): same class first
+            alpha = alpha + ''.join(c for c in string.digits + string.ascii_uppercase if c not in alpha)
+        for c in alpha:
             y = w[:j] + c + w[j + 1:]
             if _ok(m, y, opts):
                 return y
